@@ -2,6 +2,8 @@
 from mc import kernel
 from props.worldlib import WorldDriver
 
+SHAPES = ((), ('A',), ('B',), ('A', 'X'), ('B', 'X'), ('A', 'A'))
+
 RULE = ('E1 breadth-first search over World operation histories on the real '
         'World; every transition is executed on the implementation and '
         'compared with a dict-of-dicts table; all query families are '
@@ -17,7 +19,7 @@ def drivers(tier):
     if tier == 'quick':
         d['coarse-fixpoint'] = (WorldDriver(
             'coarse-fixpoint', own='Q', ids=(1, 2), explicit_ids=(1, 2),
-            max_autos=1), {})
+            max_autos=1, shapes=SHAPES), {})
         d['fine-depth'] = (WorldDriver(
             'fine-depth', own='Q', ids=(1, 2), explicit_ids=(1, 2),
             max_autos=1, coarse=False), dict(max_depth=3))
